@@ -85,8 +85,9 @@ SPECS = {
         groups=["fields", "project"],
         only_oracles=["serde_name", "present", "nopanic", "c06_wire_names"],
         # the text-level reader of `c06_wire_names` cannot take apart declarations whose member types are the unbalanced
-        # fragments of K05, and two declarations of one name are not told apart: out of its reach, not findings
-        excluded_classes=["K05_commaUnsafe", "K02a_prefixUnsafe", "K02e_nameClash", "duplicateTypeNames"],
+        # fragments of K05, two declarations of one name are not told apart, and a literal with a quote or backslash in it (K01e: emitted
+        # unescaped) is not read back as the name it stands for: out of its reach, not findings
+        excluded_classes=["K05_commaUnsafe", "K02a_prefixUnsafe", "K02e_nameClash", "duplicateTypeNames", "K01e_quoteInLiteral"],
         theorems="Typegen.Theorems.C06",
         trusted_base=[LEAN_TB, HARNESS_TB,
                       "spec: N.serdeName / N.applyVariant transcribe serde_derive internals/case.rs (apply_to_field / apply_to_variant), is_uppercase on ASCII",
